@@ -104,23 +104,32 @@ func blockToSeqPair(alignedBlock alignedBlockInfo, ref []byte) alignPair {
 	if len(insertions) > 0 {
 		sort.Sort(byStart(insertions))
 
-		// if we are going to insert multiple insertions into one pair then we will need to keep track
-		// of the coordinate offset after the first one
-		offsets := make([]int, len(alignedBlock.seqpairArray))
-
 		// for every insertion
 		for _, insertion := range insertions {
 			// this is the pair it is already present in, which we will skip:
 			rowNumber := insertion.rowNumber
-			for j, seqPair := range alignedBlock.seqpairArray {
+			for j := range alignedBlock.seqpairArray {
 				// don't reinsert - the insertion already exists in this one
 				if j == rowNumber {
 					continue
 				}
 
-				// if the insertions starts after the (offset) length of this sequence,
+				// find the column of this pair at which the insertion sits: the column
+				// just after the first insertion.start reference bases, counting only
+				// non-gap columns of the (possibly already gapped) reference row, so
+				// that this pair's own insertions and earlier gaps are accounted for
+				col := 0
+				seen := 0
+				for col < len(refSeqArray[j]) && seen < insertion.start {
+					if refSeqArray[j][col] != '-' {
+						seen++
+					}
+					col++
+				}
+
+				// if the insertion starts after the end of this sequence,
 				// we don't have to do anything to this pair here
-				if insertion.start > len(alignedBlock.seqpairArray[j].ref)-offsets[j] {
+				if seen < insertion.start {
 					continue
 				}
 
@@ -130,16 +139,19 @@ func blockToSeqPair(alignedBlock alignedBlockInfo, ref []byte) alignPair {
 					gaps[k] = '-'
 				}
 
-				refSeqArray[j] = refSeqArray[j][:insertion.start+offsets[j]]
-				refSeqArray[j] = append(refSeqArray[j], gaps...)
-				refSeqArray[j] = append(refSeqArray[j], seqPair.ref[insertion.start+offsets[j]:]...)
+				// build new slices, so that the backing arrays of the original
+				// sequences are never written to
+				newRef := make([]byte, 0, len(refSeqArray[j])+insertion.length)
+				newRef = append(newRef, refSeqArray[j][:col]...)
+				newRef = append(newRef, gaps...)
+				newRef = append(newRef, refSeqArray[j][col:]...)
+				refSeqArray[j] = newRef
 
-				queSeqArray[j] = seqPair.query[:insertion.start+offsets[j]]
-				queSeqArray[j] = append(queSeqArray[j], gaps...)
-				queSeqArray[j] = append(queSeqArray[j], seqPair.query[insertion.start+offsets[j]:]...)
-
-				// and we add the relevant offset to account for this insertion in future coordinates
-				offsets[j] += insertion.length
+				newQue := make([]byte, 0, len(queSeqArray[j])+insertion.length)
+				newQue = append(newQue, queSeqArray[j][:col]...)
+				newQue = append(newQue, gaps...)
+				newQue = append(newQue, queSeqArray[j][col:]...)
+				queSeqArray[j] = newQue
 			}
 		}
 	}
